@@ -2,7 +2,7 @@
    justification).  Executable only; the theorems are in Proofs/C06Sites.v and Props/C06.v. *)
 From Coq Require Import String Ascii ZArith List Bool.
 Import ListNotations.
-From RV Require Import Model.HashModel Gen.C06Sites.
+From RV Require Import Model.HashModel Gen.C06Sites Gen.C06BinSites.
 Local Open Scope string_scope.
 
 Definition str_in (s : string) (l : list string) : bool := existsb (String.eqb s) l.
@@ -96,3 +96,29 @@ Definition gen_fns_ok : bool :=
   && forallb (fun g => str_in (gf_counter g) c06_counter_fields) c06_gen_id_fns
   && forallb (fun f => existsb (fun p => String.eqb (fst p) f && Z.eqb (snd p) 0) c06_counter_inits) c06_counter_fields
   && forallb (fun f => str_in f (map gf_counter c06_gen_id_fns)) c06_counter_fields.
+
+(* ---- the two command-line front ends (crates/{resvg,usvg}/src/main.rs): "separate processes" covers the shipped
+   binaries.  Hash containers: same lookup-only rule.  Shared state / ambient inputs, allowed:
+     static   immutable (the `static LOGGER: SimpleLogger` unit struct)
+     process  process::exit
+     env      only the compile-time env!("CARGO_PKG_VERSION") of --version
+     time     only in resvg's `timed` / `render_svg` (the --perf statistics, printed to stdout, never in the image) *)
+Definition has_sub (sub s : string) : bool :=
+  (fix go (n : nat) (t : string) : bool :=
+     match n with
+     | O => false
+     | S n' => String.prefix sub t || match t with EmptyString => false | String _ r => go n' r end
+     end) (S (String.length s)) s.
+Definition bin_ssite_ok (s : ssite) : bool :=
+  String.eqb (ss_kind s) "static"
+  || String.eqb (ss_kind s) "process"
+  || (String.eqb (ss_kind s) "env" && has_sub "env!(""CARGO_PKG_VERSION"")" (ss_text s))
+  || (String.eqb (ss_kind s) "time" && String.eqb (ss_file s) "crates/resvg/src/main.rs"
+      && str_in (ss_fn s) ["timed"; "render_svg"]).
+Definition bin_ledger_ok : bool :=
+  forallb (fun h => hsite_ok h && hsite_resolved h) c06_bin_hash_sites
+  && forallb ctor_ok c06_bin_hash_ctor_sites
+  && forallb mention_ok c06_bin_hash_mentions
+  && forallb bin_ssite_ok c06_bin_shared_sites
+  && forallb hasher_ok c06_bin_hasher_sites
+  && Nat.eqb (length c06_bin_scanned_files) 2.
